@@ -131,3 +131,56 @@ def check_probabilities(cx):
         link, must_reject, may_reject = spec(st)
         return z3.BoolVal(False) if link is None else z3.And(link, may_reject)
     cx.ensures(post); cx.raises(exc)
+
+
+@contract(F, 'StructureTransformer._assign_simult', ['C19'])
+def assign_simult(cx):
+    """x1, ..., xk = e1, ..., ek  becomes  t1 = e1; ...; tk = ek; x1 = t1; ...; xk = tk  with k fresh temporaries, in this order: every right-hand
+    side is evaluated before any of the variables is overwritten (the parallel meaning); malformed shapes are refused.
+    Tokens are modelled by their text (two tokens are equal iff their texts are; a text literal is a distinguished token)."""
+    args = cx.seq('args', DRef('Token'))
+    TYPE = z3.Function('token_type', REF, REF); TGT = z3.Function('assign_target', REF, REF); SRC = z3.Function('assign_source', REF, REF)
+    UNIQ = z3.Function('unique_name', I, REF)
+    TEXT = lambda lit: z3.Const(f'text_{lit}', REF)
+    pv = cx.set('program_variables', DRef()); av = cx.set('artificial_variables', DRef())
+    cx.param(self=cx.obj('StructureTransformer', program_variables=pv, artificial_variables=av), args=args)
+    n = z3.Length(args.t)
+    cx.requires(n > 3)            # the caller (assign) dispatches here only for more than three children
+
+    def floor(ex, st, a):          # int(x) for x >= 0: the integer k with k <= x < k + 1, as a named integer (keeps the queries linear and small)
+        k = ex.fresh(I, 'floor'); st.pc += [z3.ToReal(k) <= a.t, a.t < z3.ToReal(k) + 1]; return VI(k)
+    cx.set_hook('int_of_real', floor)
+    lit = lambda v: v.kind == 'str' and z3.is_string_value(v.t)
+    cx.set_hook('eq_hook', lambda ex, a, b: (a.t == TEXT(b.t.as_string())) if a.kind == 'ref' and lit(b) else ((b.t == TEXT(a.t.as_string())) if b.kind == 'ref' and lit(a) else None))
+    cx.field('type', lambda ex, st, o: V('ref', TYPE(o.t))); cx.field('line', lambda ex, st, o: VI(0)); cx.field('column', lambda ex, st, o: VI(0))
+    cx.call('get_unique_var', lambda ex, st, r, a, kw: V('ref', UNIQ(st['$i0'].t)), trusted='get_unique_var(name): a name used nowhere else (C20 bounded twin: counter)')
+    cx.call('Token', lambda ex, st, r, a, kw: V('ref', TEXT(a[1].t.as_string())) if lit(a[1]) else a[1])
+
+    def assign(ex, st, r, a, kw):
+        sq = a[0]
+        if sq.kind != 'seq': raise OutOfReach('assign')
+        o = ex.fresh(REF, 'assignment')
+        st.pc += [TGT(o) == z3.simplify(sq.t[0]), SRC(o) == z3.simplify(sq.t[2])]
+        return V('ref', o)
+    cx.call('assign', assign, trusted='StructureTransformer.assign([target, "=", value]): the assignment target = value')
+    cx.set_hook('empty_kinds', {'assignments1': DSeq(DRef()), 'assignments2': DSeq(DRef())})
+    j = z3.Int('j')
+
+    def shape(st, a1, a2, upto):
+        nv = st['num_vars'].t
+        return z3.And(z3.Length(a1) == upto, z3.Length(a2) == upto,
+                      z3.ForAll([j], z3.Implies(z3.And(0 <= j, j < upto),
+                                                z3.And(TGT(a1[j]) == UNIQ(j), SRC(a1[j]) == args.t[nv + 1 + j], TGT(a2[j]) == args.t[j], SRC(a2[j]) == UNIQ(j),
+                                                       TYPE(args.t[j]) == TEXT('VARIABLE')))))
+    cx.invariant(0, lambda st: shape(st, st['assignments1'].t, st['assignments2'].t, st['$i0'].t))
+
+    def post(st, r):        # the temporaries first (every right-hand side read before any variable is written), then the variables
+        nv = st['num_vars'].t; a1, a2 = st['assignments1'].t, st['assignments2'].t
+        return z3.And(2 * nv + 1 == n, args.t[nv] == TEXT('='), r.t == z3.Concat(a1, a2), shape(st, a1, a2, nv))
+    cx.ensures(post)
+
+    def exc(st, e):
+        if 'num_vars' not in st.vars: return n % 2 == 0
+        nv = st['num_vars'].t
+        return z3.Or(args.t[nv] != TEXT('='), z3.Exists([j], z3.And(0 <= j, j < nv, TYPE(args.t[j]) != TEXT('VARIABLE'))))
+    cx.raises(exc)
